@@ -81,7 +81,7 @@ fn law_table(out: &mut Out) {
     laws!(f64, "f64");
 }
 
-fn watchdog<R: Send + 'static>(secs: u64, f: impl FnOnce() -> R + Send + 'static) -> Option<Result<R, String>> {
+pub fn watchdog<R: Send + 'static>(secs: u64, f: impl FnOnce() -> R + Send + 'static) -> Option<Result<R, String>> {
     let (tx, rx) = mpsc::channel();
     std::thread::spawn(move || {
         let r = std::panic::catch_unwind(std::panic::AssertUnwindSafe(f)).map_err(|e| {
@@ -325,6 +325,14 @@ pub fn run(out: &mut Out) {
         } else {
             hmc_case::<f64, Autodiff<NdArray<f64>>>(out, &mut rng);
             nuts_case::<f32, Autodiff<NdArray<f32>>>(out, &mut rng);
+        }
+    }
+    // find_reasonable_epsilon next to a support boundary (halving while the first leapfrog is non-finite)
+    for i in 0..out.n(40, 1000) {
+        if i % 2 == 0 {
+            crate::nuts::fre_boundary::<f32, Autodiff<NdArray<f32>>>(out, &mut rng, "C14");
+        } else {
+            crate::nuts::fre_boundary::<f64, Autodiff<NdArray<f64>>>(out, &mut rng, "C14");
         }
     }
 }
